@@ -2,11 +2,11 @@
 // very beginning (a slow state machine).  The library calls them with its lock released; C10 demands that
 // a snapshot labelled i holds exactly the operations up to i and that no operation is applied twice.
 //
-//  scenario snapshot-vs-apply (D8): takeSnapshot has chosen its label (lastApplied = k) and is inside
-//     fsm.Snapshot when applyLoop applies operation k+1; the snapshot is written afterwards.  The node is
-//     restarted: restore + replay of the entries after the label must give every operation once.
-//  scenario restore-vs-apply (D9): a follower is inside fsm.Apply(k) when a snapshot covering k is installed
-//     (fsm.Restore); the held Apply then completes.  Operation k must be in the state machine once.
+//	scenario snapshot-vs-apply (D8): takeSnapshot has chosen its label (lastApplied = k) and is inside
+//	   fsm.Snapshot when applyLoop applies operation k+1; the snapshot is written afterwards.  The node is
+//	   restarted: restore + replay of the entries after the label must give every operation once.
+//	scenario restore-vs-apply (D9): a follower is inside fsm.Apply(k) when a snapshot covering k is installed
+//	   (fsm.Restore); the held Apply then completes.  Operation k must be in the state machine once.
 package main
 
 import (
